@@ -29,7 +29,7 @@ def mutants(prog):
         ("callable parameters not refreshed", P, "ParametricTransform.update", "p = self._data()", "p = self.p", "T6x."),
         ("dense regrid: axes before sample", N, "DenseVectorFieldTransform.grid_", "flow = flow.sample(self.data_grid(grid))\n        flow = flow.axes(grid_axes)", "flow = flow.axes(grid_axes)\n        flow = flow.sample(self.data_grid(grid))", "T6x.regrid"),
         ("dense regrid: no resampling", N, "DenseVectorFieldTransform.grid_", "flow = flow.sample(self.data_grid(grid))\n        flow = flow.axes(grid_axes)", "flow = flow.axes(grid_axes)", "T6x.regrid"),
-        ("svf regrid keeps exp convention", N, "StationaryVelocityFieldTransform.grid_", "self.exp.align_corners = grid.align_corners()", "pass", "T6x."),
+        ("svf regrid keeps exp convention", N, "StationaryVelocityFieldTransform.grid_", "exp.align_corners = grid.align_corners()", "pass", "T6x."),
         ("ffd refine crop", S, "BSplineTransform.grid_", "new_params = new_params.narrow(dim, 1, new_shape[dim])", "new_params = new_params.narrow(dim, 0, new_shape[dim])", "T6x.regrid"),
         ("composite update skips linear members", "deepali.spatial.composite", "CompositeTransform.update", "for transform in self.transforms():\n        transform.update()", "for transform in self.transforms():\n        if transform.nonrigid:\n            transform.update()", "T6x."),
         ("generic inverse drops link", "deepali.spatial.generic", "GenericSpatialTransform.inverse", "inv = super().inverse(link=link, update_buffers=update_buffers)", "inv = super().inverse(update_buffers=update_buffers)", "T6x.linked-inverse"),
